@@ -110,3 +110,17 @@ PROPS["C13"] = {
                    "type requests satisfy the three-way postcondition of the statement.",
     "assumptions": [],
 }
+
+PROPS["C14"] = {
+    "title": "Parser drives the consumer in protocol order and obeys its actions",
+    "units": {"quick": ["parser_protocol", "loader"], "thorough": ["parser_protocol", "loader"]},
+    "only_items": {"loader": [r"Loader::(finalize|initialize|consume_header)"]},
+    "level": "proof",
+    "technique": "Verus contract on the extracted Parser::parse and Action::consume over a ghost callback log declared in the Consumer trait; termination measure on the parse loop",
+    "design_ref": "DESIGN.md §4 C14",
+    "explanation": "The Consumer trait is extracted with a ghost log; each callback's contract appends one event (the definition of a "
+                   "well-behaved consumer). The real parse loop is proved, for every consumer behaviour and every binary, to extend the "
+                   "log by a sequence satisfying the protocol predicate written from the statement, to terminate, and to return the result "
+                   "matching the last answer (same boxed error value).",
+    "assumptions": [],
+}
